@@ -573,6 +573,38 @@ func modeUfsDir(tier string, args []string) {
 						stat("ufsdir.offsets", 1)
 					}
 				}
+				// the directory changes while the fid stays open: reading again from offset 0 lists the new content
+				if nent >= 2 && nent <= 80 {
+					ents, _ := os.ReadDir(dpath)
+					for i, e := range ents {
+						if i%3 == 0 {
+							_ = os.Remove(filepath.Join(dpath, e.Name()))
+						}
+					}
+					for i := 0; i < 3; i++ {
+						_ = os.WriteFile(filepath.Join(dpath, fmt.Sprintf("added-%d-%s", i, strings.Repeat("z", 3+19*i))), nil, 0o644)
+					}
+					ents, _ = os.ReadDir(dpath)
+					want = want[:0]
+					for _, e := range ents {
+						want = append(want, e.Name())
+					}
+					var got []byte
+					off := uint64(0)
+					st := "OK"
+					for iter := 0; iter < len(want)+3; iter++ {
+						var d []byte
+						d, st = rawRead(s, fid, off, uint32(iounit))
+						if st != "OK" || len(d) == 0 {
+							break
+						}
+						got = append(got, d...)
+						off += uint64(len(d))
+					}
+					gn, _, gok := decodeEntries(got, du)
+					emit("DIRR %d %d %d RELIST %s SAME %d", b2i(du), msize, len(want), st, b2i(st == "OK" && gok && sameSet(gn, want)))
+					stat("ufsdir.relist_after_change", 1)
+				}
 				_ = s.clnt.Clunk(fid)
 				// the client's Readdir(0)
 				f, err := s.clnt.FOpen(dname, go9p.OREAD)
